@@ -4,11 +4,13 @@
      annot       ( name deps inputs tags fp env timeout platforms outputs )
      target_dto  ( name command deps inputs excludes outputs bin checks tags fp platforms env timeout )
      alias_dto   ( name actual )      package_dto ( source targets aliases default_platforms )
+                 an element N of targets / aliases = a nil entry (a null list element)
      oracle tables ( ( key R ) ... ) with R = E (error) or the value
    Commands:
      blocksmk <content>                     annotation blocks the Makefile scanner hands to YAML (hex, tab separated)
      blockssh <content>
      scanmk <content> <yaml table>          -> panic | error <class> | ok <found> <json dtos>   + guard=<0|1>
+                                               (guard = Loader.mk_guard: 0 on the shape whose empty block is skipped)
      scansh <file name> <content> <yaml table>
      enrich <pkg path> <package_dto> <glob table> <dur table>     -> ok <json package> | error <class>
      guardmk <content>                      -> guard=<0|1>   (Loader.mk_guard on the scanned lines)
@@ -64,7 +66,9 @@ let ad_of = function L [n; a] -> { ad_name = atom n; ad_actual = atom a } | _ ->
 
 let pd_of = function
   | L [src; ts; als; dp] ->
-    { pd_source = atom src; pd_targets = lst td_of ts; pd_aliases = lst ad_of als; pd_default_platforms = optl dp }
+    let nullable f = function A "N" -> None | x -> Some (f x) in
+    { pd_source = atom src; pd_targets = lst (nullable td_of) ts; pd_aliases = lst (nullable ad_of) als;
+      pd_default_platforms = optl dp }
   | _ -> failwith "package_dto"
 
 (* oracle tables: lookup on the OCaml string of the key; a key that is missing is a protocol error *)
@@ -114,6 +118,7 @@ let scan_err = function ErrYaml -> "yaml" | ErrNoColon -> "nocolon" | ErrTooLong
 let load_err = function
   | ELabel -> "label" | EDuplicate -> "duplicate" | EGlob -> "glob" | EOutput -> "output"
   | EBinOutput -> "binoutput" | EBinNotFile -> "binnotfile" | ETimeout -> "timeout"
+  | ENullTarget -> "nulltarget" | ENullAlias -> "nullalias"
 
 let show_scan f = function
   | Panic -> "panic"
